@@ -14,6 +14,7 @@ def F(runs):
 
 class C06(PureCheck):
     pid = "C06"
+    subst_every = 6
     warm_every = 3
     rule = ("Layouts(R,L) = every run list of <=R runs of length 0..L over {a,b} x {plain, red, bold+on_blue} "
             "(empty runs and the run-less value included); every slice bound pair in [-len-2,len+2] u {None}, every "
